@@ -2,7 +2,7 @@
    [counted c t] : the counters of the current lock array sum to the number of occupied slots.
    Statements only; closed by [exact] of lemmas of Stats.v. *)
 From Coq Require Import NArith ZArith List.
-From LC Require Import gen.HashGen Core Api InvDefs Stats.
+From LC Require Import gen.HashGen Core Api InvDefs ArrLemmas Stats InsertLemmas Resize Lazy.
 Import ListNotations.
 Local Open Scope N_scope.
 
@@ -56,3 +56,100 @@ Theorem C05_displacement_keeps_count :
   count_arr c (bset (bset a b2 s2 (Some e')) b1 s1 None) = count_arr c a.
 Proof. exact count_arr_move. Qed.
 Print Assumptions C05_displacement_keeps_count.
+(* ---- generated statements (tools/mkprops.py): counters through doubling and deferred migration ---- *)
+(* [lcounted]: counter sum = elements of the current array + elements of pending old buckets (Lazy.v) *)
+
+Theorem C05_doubling_keeps_count :
+  forall (c : config) (hash : N -> N),
+  cfg_ok c ->
+  forall (mode : bool) (t : table),
+  settled c hash t ->
+  counted c t ->
+  bhp (cur t) + 1 < 62 ->
+  hashsize (bhp (cur t)) < kmax c \/ mode = true /\ (length (cur_locks t) <= N.to_nat (kmax c))%nat ->
+  let t' := fast_double_body c hash mode t (bhp (cur t) + 1) in
+  settled c hash t' /\
+  counted c t' /\
+  bhp (cur t') = bhp (cur t) + 1 /\
+  (forall (k : N) (v : Z), holds (cur t') k v <-> holds (cur t) k v) /\
+  rc t' = wrap64 (rc t + 1) /\
+  mlfn t' = mlfn t /\
+  mlfd t' = mlfd t /\
+  mhp t' = mhp t /\
+  workers t' = workers t /\
+  nrem t' = 0 /\
+  length (cur_locks t') =
+  Nat.max (length (cur_locks t)) (N.to_nat (N.min (kmax c) (2 ^ (bhp (cur t) + 1)))).
+Proof. exact fast_double_body_immediate. Qed.
+Print Assumptions C05_doubling_keeps_count.
+
+Theorem C05_deferred_doubling_keeps_count :
+  forall (c : config) (hash : N -> N),
+  cfg_ok c ->
+  forall t : table,
+  settled c hash t ->
+  counted c t ->
+  bhp (cur t) + 1 < 62 ->
+  kmax c <= hashsize (bhp (cur t)) ->
+  (length (cur_locks t) <= N.to_nat (kmax c))%nat ->
+  let t' := fast_double_body c hash false t (bhp (cur t) + 1) in
+  wf c hash t' /\
+  lcounted c t' /\
+  bhp (cur t') = bhp (cur t) + 1 /\
+  (forall (k : N) (v : Z), lholds c t' k v <-> holds (cur t) k v) /\
+  rc t' = wrap64 (rc t + 1) /\
+  mlfn t' = mlfn t /\
+  mlfd t' = mlfd t /\
+  mhp t' = mhp t /\
+  workers t' = workers t /\
+  nrem t' = kmax c /\
+  cur t' = bnew (bhp (cur t) + 1) /\
+  old t' = cur t /\
+  length (cur_locks t') = N.to_nat (kmax c) /\ (forall l : N, l < kmax c -> mig (lock_at t' l) = false).
+Proof. exact fast_double_body_deferred. Qed.
+Print Assumptions C05_deferred_doubling_keeps_count.
+
+Theorem C05_stripe_migration_keeps_count :
+  forall (c : config) (hash : N -> N),
+  cfg_ok c ->
+  forall (s : bool) (t : table) (l : N),
+  wfg c hash s t ->
+  let t' := rehash_lock c hash s t l in
+  wfg c hash s t' /\
+  (forall (k : N) (v : Z), lholds c t' k v <-> lholds c t k v) /\
+  (lcounted c t -> lcounted c t') /\
+  mig (lock_at t' l) = true /\
+  (forall l' : N, l' <> l -> lock_at t' l' = lock_at t l') /\
+  (forall l' : N, mig (lock_at t l') = true -> mig (lock_at t' l') = true) /\
+  bhp (cur t') = bhp (cur t) /\
+  bhp (old t') = bhp (old t) /\
+  length (cur_locks t') = length (cur_locks t) /\
+  rc t' = rc t /\
+  mlfn t' = mlfn t /\
+  mlfd t' = mlfd t /\
+  mhp t' = mhp t /\
+  workers t' = workers t /\
+  (forall b s0 : N, mig (lock_at t (b mod kmax c)) = true -> bget (cur t') b s0 = bget (cur t) b s0).
+Proof. exact rehash_lock_wf. Qed.
+Print Assumptions C05_stripe_migration_keeps_count.
+
+Theorem C05_lock_table_count_exact :
+  forall (c : config) (hash : N -> N),
+  cfg_ok c ->
+  forall (s : bool) (t : table),
+  wfg c hash s t ->
+  let t' := rehash_with_workers c hash t in
+  settled c hash t' /\
+  (lcounted c t -> counted c t') /\
+  (forall (k : N) (v : Z), holds (cur t') k v <-> lholds c t k v) /\
+  bhp (cur t') = bhp (cur t) /\
+  nrem t' = 0 /\
+  length (cur_locks t') = length (cur_locks t) /\
+  rc t' = rc t /\ mlfn t' = mlfn t /\ mlfd t' = mlfd t /\ mhp t' = mhp t /\ workers t' = workers t.
+Proof. exact rehash_with_workers_wf. Qed.
+Print Assumptions C05_lock_table_count_exact.
+
+Theorem C05_count_predicates_agree_when_settled :
+  forall (c : config) (t : table), all_migrated t -> lcounted c t <-> counted c t.
+Proof. exact lcounted_settled. Qed.
+Print Assumptions C05_count_predicates_agree_when_settled.
